@@ -1,6 +1,6 @@
 (* Model of src/xargs/mod.rs: limiter chain, CommandBuilderOptions::new, process_input,
    CommandBuilder::execute's classification, xargs_main's exit status.  Definitions only. *)
-Require Import Batch.
+Require Import Batch Tables.
 From Coq Require Import List NArith Bool.
 Import ListNotations.
 Local Open Scope N_scope.
@@ -90,9 +90,11 @@ Definition classify (o : child) : cres + cerr :=
   | CannotRun => inr CantRun
   end.
 Definition combine (r o : cres) : cres := match r with Success => o | Failure => Failure end.
-Definition status_ok (r : cres) : N := match r with Success => 0 | Failure => 123 end.
+(* xargs_main's arms, regenerated from the source (Generated/Tables.v) *)
+Definition status_ok (r : cres) : N := match r with Success => nth 0 xargs_status 99 | Failure => nth 1 xargs_status 99 end.
 Definition status_err (e : cerr) : N :=
-  match e with Urgent => 124 | Killed => 125 | CantRun => 126 | Missing => 127 end.
+  match e with Urgent => nth 2 xargs_status 99 | Killed => nth 3 xargs_status 99
+             | CantRun => nth 4 xargs_status 99 | Missing => nth 5 xargs_status 99 end.
 
 (* state of the run: combined result so far, scripted outcomes still to come, invocations made *)
 Record xs := { res : cres; outs : list child; log : list (list arg) }.
